@@ -232,6 +232,39 @@ def run(ctx, scratch):
                 if takes_res:
                     opts.setdefault('params', {}).update(TIE_PARAMS[k % len(TIE_PARAMS)])
                 _both(ctx, normal, None, name, spec, opts, 'tie_' + shape, timeout=15)
+        # balanced digraphs: every node has equal in- and out-weight but the matrix is NOT symmetric (directed cycles, a regular
+        # tournament, a directed torus, disjoint directed triangles, a 3-clique with unequal directions): code that takes "in-weights
+        # = out-weights" for "undirected" goes wrong exactly here (seed C17_6: the Louvain family never returned)
+        def balanced_digraph(k):
+            kind = k % 5
+            if kind == 0:
+                n = rng.randint(3, 9)
+                E = [(i, (i + 1) % n, 1) for i in range(n)]
+            elif kind == 1:
+                n = 5
+                E = [(i, (i + d_) % n, 1) for i in range(n) for d_ in (1, 2)]
+            elif kind == 2:
+                a_ = rng.choice([3, 4])
+                n = a_ * a_
+                E = [(r * a_ + c, r * a_ + (c + 1) % a_, 1) for r in range(a_) for c in range(a_)] + \
+                    [(r * a_ + c, ((r + 1) % a_) * a_ + c, 1) for r in range(a_) for c in range(a_)]
+            elif kind == 3:
+                n = 6
+                E = [(0, 1, 1), (1, 2, 1), (2, 0, 1), (3, 4, 1), (4, 5, 1), (5, 3, 1)]
+            else:
+                n = 3
+                E = [(0, 1, 2), (1, 2, 2), (2, 0, 2), (1, 0, 1), (2, 1, 1), (0, 2, 1)]
+            return dict(shape=[n, n], coo=[[i, j, w] for (i, j, w) in E], dtype='int', fmt='csr'), n
+        for name in sorted(desc):
+            d = desc[name]
+            if 'sq' not in d['kinds'] or name == 'get_cycles':
+                continue
+            for k in range(5 if quick else 25):
+                spec, n = balanced_digraph(k)
+                opts = cases.make_opts(rng, d, n, n, False)
+                if name.startswith('GNNClassifier'):
+                    opts = cases.gnn_opts(rng, n)
+                _both(ctx, normal, None, name, spec, opts, 'balanced_digraph', timeout=15)
         # oscillating configurations under the default (unbounded) number of sweeps
         for k in range(60 if quick else 600):
             spec, n = oscillating(rng)
